@@ -48,11 +48,21 @@ fn pick_payload(rng: &mut Rng) -> u16 {
     }
 }
 
-pub fn gen_keys(rng: &mut Rng) -> Vec<Key> {
+pub fn gen_keys(rng: &mut Rng, related: &[RName]) -> Vec<Key> {
     let n = rng.range(1, 3);
     let mut keys = Vec::new();
     for i in 0..n {
         let name = match rng.below(5) {
+            1 | 2 if !related.is_empty() => {
+                // a key name that shares labels with names in the zones
+                let base = rng.pick(related).clone();
+                let c = base.child(if rng.bool() { b"key" } else { b"k" });
+                if c.is_valid() {
+                    c
+                } else {
+                    base
+                }
+            }
             0 => {
                 // very long key name
                 let mut n = RName::root();
@@ -87,7 +97,8 @@ pub fn gen_scenario(rng: &mut Rng, prop: &str) -> Scenario {
     };
     let built = gen_catalog(rng, &opts);
     let mut cfg = ServerCfg { payload: pick_payload(rng), rrl: None, keys: Vec::new() };
-    if prop == "c01" {
+    let names = interesting_names(rng, &built.reference);
+    if prop == "c01" || prop == "c02" {
         if rng.chance(1, 3) {
             cfg.rrl = Some(RrlCfg {
                 noerror: *rng.pick(&[1u32, 2, 100]),
@@ -101,10 +112,9 @@ pub fn gen_scenario(rng: &mut Rng, prop: &str) -> Scenario {
             });
         }
         if rng.chance(1, 2) {
-            cfg.keys = gen_keys(rng);
+            cfg.keys = gen_keys(rng, &names);
         }
     }
-    let names = interesting_names(rng, &built.reference);
     let catalog = Arc::new(built.catalog.clone());
     let server = make_server(catalog, &cfg);
     let bufs = Buffers::new(cfg.payload);
@@ -154,6 +164,15 @@ fn gen_request(rng: &mut Rng, sc: &Scenario, prop: &str) -> (Vec<u8>, &'static s
                 spec.questions.push((Some(NameEnc::Compressed(n)), t, c));
             }
             if rng.chance(1, 10) {
+                spec.questions.clear();
+            }
+        }
+        "c08" => {
+            if rng.chance(1, 4) {
+                let opcode = rng.range(1, 15) as u16;
+                spec.flags = (spec.flags & !0x7800) | (opcode << 11);
+            }
+            if rng.chance(1, 12) {
                 spec.questions.clear();
             }
         }
@@ -653,14 +672,14 @@ pub fn run(ctx: &Ctx, rep: &mut Report, prop: &str) {
         c03_header_sweep(ctx, rep);
     }
     let (quick, thorough, per_scenario) = match prop {
-        "c01" => (6_000u64, 300_000u64, 40usize),
-        "c02" => (5_000, 250_000, 40),
-        "c03" => (3_000, 150_000, 40),
-        "c04" => (2_500, 120_000, 30),
-        "c05" => (1_600, 100_000, 0),
-        "c07" => (4_000, 200_000, 40),
-        "c08" => (5_000, 250_000, 40),
-        "c09" => (5_000, 250_000, 40),
+        "c01" => (40_000u64, 1_200_000u64, 40usize),
+        "c02" => (40_000, 1_000_000, 40),
+        "c03" => (20_000, 600_000, 40),
+        "c04" => (20_000, 500_000, 30),
+        "c05" => (10_000, 400_000, 0),
+        "c07" => (24_000, 800_000, 40),
+        "c08" => (32_000, 1_000_000, 40),
+        "c09" => (32_000, 1_000_000, 40),
         _ => unreachable!(),
     };
     let n = if ctx.is_miri() { ctx.cases(4, 160) } else { ctx.cases(quick, thorough) };
